@@ -367,6 +367,9 @@ func (t *trTranslator) typeHasFunc(ty types.Type, depth int) bool {
 	if depth > 6 {
 		return false
 	}
+	if trIsTreeNode(ty) {
+		return true // a tree of multimap nodes: no derived equality either
+	}
 	switch x := ty.Underlying().(type) {
 	case *types.Signature:
 		return true
